@@ -113,7 +113,10 @@ int snprintf(char *buf, size_t n, const char *fmt, ...) {
 /* a counted or constant string operand of `len` (<= 3) non-NUL characters */
 static void vm_string(int k, svalue_t *v, int len, int subtype) {
   char *c = k == 0 ? &G_s0[0] : &G_s1[0];
-  for (int i = 0; i < 4; i++) { if (i < len) V_ASSUME(CSTR_S(c)[i] != 0); }
+  /* arbitrary non-NUL characters (the blocks are zero-initialised statics: they must be written, not assumed about) */
+  V_DECL(char, ch0); V_DECL(char, ch1); V_DECL(char, ch2);
+  V_ASSUME(ch0 != 0 && ch1 != 0 && ch2 != 0);
+  CSTR_S(c)[0] = ch0; CSTR_S(c)[1] = ch1; CSTR_S(c)[2] = ch2;
   CSTR_S(c)[len] = 0; CSTR_H(c)->size = (unsigned short)len; CSTR_H(c)->ref = 1;
   v->type = T_STRING; v->subtype = (short)subtype; v->u.string = CSTR_S(c);
 }
